@@ -312,3 +312,26 @@ fn lib_writer_refused() {
     });
     report(r);
 }
+
+#[test]
+fn lib_from_name() {
+    let r = catch_unwind(|| -> Option<String> {
+        for (name_len, present) in [(3usize, 3usize), (3, 2), (3, 0), (1, 0), (0, 0), (40, 39), (40, 40)] {
+            let mut hdr = vec![0u8];
+            hdr.extend_from_slice(&7u64.to_le_bytes());
+            hdr.extend_from_slice(&(name_len as u64).to_le_bytes());
+            hdr.extend(std::iter::repeat(b'n').take(present));
+            let mut src: &[u8] = &hdr;
+            match ArchiveFileBlock::from(&mut src) {
+                Ok(ArchiveFileBlock::FileStart { filename, .. }) if present >= name_len && filename.len() == name_len => {}
+                Err(_) if present < name_len => {}
+                Ok(ArchiveFileBlock::FileStart { filename, .. }) => {
+                    return Some(format!("a file start announcing a {name_len}-byte name with only {present} bytes present was accepted with the name {filename:?}"));
+                }
+                other => return Some(format!("file start with name length {name_len}, {present} present: {:?}", other.is_ok())),
+            }
+        }
+        None
+    });
+    report(r);
+}
